@@ -15,10 +15,16 @@ META = dict(
          "SelectCoinsBnB / CoinGrinder / SelectCoinsSRD / KnapsackSolver with real COutput / OutputGroup objects in several input orders and RNG "
          "seeds; the returned input set is looked up in the row's table: it must be a union of offered groups that the specification admits, "
          "GetSelectedEffectiveValue / GetSelectedValue / GetWeight / GetWaste (after RecalculateWaste) must equal the table's sums, and a result "
-         "with GetAlgoCompleted() must carry the table's 'no feasible subset is strictly better' flag. Which coins are picked is never predicted.",
+         "with GetAlgoCompleted() must carry the table's 'no feasible subset is strictly better' flag. Which coins are picked is never predicted. "
+         "The attempt bound (TOTAL_TRIES; a variable in the BITCOIN_VERIF build) is part of the call: the module also contains SelectCoinsBnB and "
+         "CoinGrinder as coded, one operator application per loop iteration with the bound checked where the code checks it; TLC decides on that model "
+         "that whatever a completed search returns is optimal per the exhaustive definition and every intermediate best is admitted, and the real "
+         "searches are run with EVERY bound 1 .. 2^(n+1)+1 on every small pool: each result must be admitted, a result claiming completion optimal "
+         "(verdicts), and completed flag / attempt count / weight / amount are compared with the model's run (reported as deviations).",
     note="Relation mode: a heuristic that fails although a feasible subset exists is counted, not reported (SRD, knapsack, branch-and-bound); "
          "CoinGrinder failing on these tiny pools (search space far below its attempt limit) is reported. Bounded domain: <= 6 groups, catalogue "
-         "of 12 group types; the 100000-attempt cut-off (GetAlgoCompleted() = false) cannot be reached at these sizes.",
+         "of 12 group types. The production value of the attempt bound (100000) is not reached at these sizes; the bound is lowered through the "
+         "verification hook g_verif_total_tries instead, so that it hits at every position of the search.",
     technique="TLA+ feasibility relation + brute-force optimum, TLC-enumerated oracle table, lookup of the implementation's answer",
 )
 
@@ -44,6 +50,7 @@ def run(ctx):
     reps = 3 if ctx.tier == "quick" else 4
     total = {}
     known = []
+    devs = []
     for cfg in cfgs:
         r = ctx.tlc("CoinSelection", "CoinSelection", cfg, timeout=2400)
         n0 = init_states(r.log_path)
@@ -59,6 +66,7 @@ def run(ctx):
         for i in (0, len(res["lines"]) // 2):
             ctx.sample(json.loads(res["lines"][i]))
         known += [o for o in res["infos"] if o.get("kind") == "known_pattern"]
+        devs += [dict(cfg=cfg, why=d.get("why")) for d in res["deviations"][:3]]
         vflib.report_mismatches(ctx, binary, "table", res, args=[ctx.seed, reps], adapter="coinselection", what_prefix="CoinSelection (%s): " % cfg,
                                 key_fn=lambda m, case: "row:" + vflib.digest(re.sub(r"-?\d+", "N", m.get("why") or "")))
         res["lines"] = None
@@ -77,6 +85,8 @@ def run(ctx):
     ctx.nontrivial = sum(total.get("rows_choice_" + al, 0) for al in ALGOS)
     ctx.extra["harness_counters"] = {k: v for k, v in sorted(total.items()) if k not in ("tests", "steps", "mismatches", "deviations")}
     ctx.extra["heuristic_failures_with_feasible_subset"] = {al: total.get("fail_but_feasible_" + al, 0) for al in ALGOS}
+    ctx.extra["as_coded_model"] = dict(compared_calls={al: total.get("as_coded_compared_" + al, 0) for al in ("bnb", "cg")},
+                                       deviations=total.get("deviations", 0), deviation_samples=devs[:3])
     nk = total.get("known_bnb_cloneskip", 0)
     ctx.extra["bnb_complete_but_not_optimal_cloneskip_rows"] = nk
     if nk:
